@@ -307,7 +307,7 @@ func run(cfg lib.Cfg) error {
 		}
 		judge(sc, "corpus-reference-on-orphaned-chain", true, nil)
 	}
-	nre := 10
+	nre := 6
 	if cfg.Thorough() {
 		nre = 200
 	}
@@ -366,7 +366,7 @@ func run(cfg lib.Cfg) error {
 		judge(sc, "reorg-interleaved", true, nil)
 	}
 	reorgMode = false
-	n := 34
+	n := 22
 	if cfg.Thorough() {
 		n = 500
 	}
